@@ -1,9 +1,9 @@
 package main
 
 import (
-	"os"
 	"crypto/sha256"
 	"fmt"
+	"os"
 	"sort"
 	"strings"
 
@@ -95,7 +95,7 @@ type collKey struct{ s string }
 
 func (c collKey) MarshalRestLi(w restlicodec.Writer) error { w.WriteString(c.s); return nil }
 func (c collKey) ComputeHash() fnv1a.Hash                  { return fnv1a.HashInt32(int32(len(c.s) % 2)) }
-func (c collKey) Equals(o collKey) bool                     { return c.s == o.s }
+func (c collKey) Equals(o collKey) bool                    { return c.s == o.s }
 
 func partC09(a *hcli.Args, rep *report.Report, univName string, u *schema.Universe) {
 	// ---- 1. WriteMap seam: all call orders
@@ -172,39 +172,45 @@ func partC09(a *hcli.Args, rep *report.Report, univName string, u *schema.Univer
 	}
 	// ---- 2. BuildQueryParams: all parameter orders
 	s2 := rep.S("query-param-orders")
-	params := []string{"q", "ids", "start", "count", "zz", "a"}
-	s2.Bounds = fmt.Sprintf("every permutation of parameter order for n<=%d parameters through BuildQueryParams", maxN)
-	for n := 1; n <= maxN && a.Shard == 0; n++ {
-		var first string
-		for pi, order := range allPerms(n) {
-			out, err := restlicodec.BuildQueryParams(func(pw func(string) restlicodec.Writer) error {
-				for _, i := range order {
-					pw(params[i]).WriteString("v" + params[i])
+	paramSets := [][]string{
+		{"q", "ids", "start", "count", "zz", "a"},
+		{"tag", "tag2", "tag10", "t", "tag_x", "tagX"}, // names extending one another, also with bytes below '='
+		{"ids", "ids2", "q", "q2", "Q", "_q"},
+	}
+	s2.Bounds = fmt.Sprintf("%d parameter-name sets (identifiers; prefix pairs continuing with digits, i.e. bytes below '=', with '_' and with capitals) x every permutation of parameter order for n<=%d parameters through BuildQueryParams", len(paramSets), maxN)
+	for _, params := range paramSets {
+		for n := 1; n <= maxN && a.Shard == 0; n++ {
+			var first string
+			for pi, order := range allPerms(n) {
+				out, err := restlicodec.BuildQueryParams(func(pw func(string) restlicodec.Writer) error {
+					for _, i := range order {
+						pw(params[i]).WriteString("v" + params[i])
+					}
+					return nil
+				})
+				s2.Evaluations++
+				s2.Transitions++
+				s2.Traces++
+				s2.States++
+				if err != nil {
+					rep.Fail(fmt.Sprintf("%s det query error", a.Gen), err.Error(), nil)
+					continue
 				}
-				return nil
-			})
-			s2.Evaluations++
-			s2.Transitions++
-			s2.Traces++
-			s2.States++
-			if err != nil {
-				rep.Fail(fmt.Sprintf("%s det query error", a.Gen), err.Error(), nil)
-				continue
+				if pi == 0 {
+					first = out
+					var names []string
+					for _, p := range strings.Split(out, "&") {
+						names = append(names, strings.SplitN(p, "=", 2)[0])
+					}
+					if !sort.StringsAreSorted(names) {
+						rep.Fail(fmt.Sprintf("%s det query params-not-ascending n=%d", a.Gen, n), fmt.Sprintf("query %q: parameters %q are not in ascending byte order", out, names), nil)
+					}
+				} else if out != first {
+					rep.Fail(fmt.Sprintf("%s det query order-dependent n=%d", a.Gen, n), fmt.Sprintf("parameter order %v gives %q, identity gives %q", order, out, first), nil)
+				}
 			}
-			if pi == 0 {
-				first = out
-				var names []string
-				for _, p := range strings.Split(out, "&") {
-					names = append(names, strings.SplitN(p, "=", 2)[0])
-				}
-				if !sort.StringsAreSorted(names) {
-					rep.Fail(fmt.Sprintf("%s det query params-not-ascending n=%d", a.Gen, n), fmt.Sprintf("query %q: parameters %q are not in ascending byte order", out, names), nil)
-				}
-			} else if out != first {
-				rep.Fail(fmt.Sprintf("%s det query order-dependent n=%d", a.Gen, n), fmt.Sprintf("parameter order %v gives %q, identity gives %q", order, out, first), nil)
-			}
+			s2.Class(fmt.Sprintf("ok:n=%d", n))
 		}
-		s2.Class(fmt.Sprintf("ok:n=%d", n))
 	}
 	// ---- 3. batch key sets: all insertion orders
 	s3 := rep.S("batch-key-insertion-orders")
@@ -356,7 +362,10 @@ func partC09(a *hcli.Args, rep *report.Report, univName string, u *schema.Univer
 		s4.Class("ok:" + w.Name[:2])
 	}
 	rep.Extra["cmp:encoding-digest-"+a.Gen] = fmt.Sprintf("%x", digest.Sum(nil))
-	rep.Sample(map[string]interface{}{"writer": "header", "keys": keySets[0][:4], "call_orders": 24, "output": func() string { o, _ := writeMapInOrder(seamWriter("header", nil), keySets[0][:4], []int{3, 1, 0, 2}, false); return o }()})
+	rep.Sample(map[string]interface{}{"writer": "header", "keys": keySets[0][:4], "call_orders": 24, "output": func() string {
+		o, _ := writeMapInOrder(seamWriter("header", nil), keySets[0][:4], []int{3, 1, 0, 2}, false)
+		return o
+	}()})
 }
 
 func splitIds(q string) []string {
